@@ -878,6 +878,9 @@ def transform_quantitative_feature(
 
     # converting nans to there value
     if any(nans):
+        # a fixed-width array of labels would truncate a longer label of nans
+        if getattr(df_feature, "dtype", None) is not None and df_feature.dtype.kind in "US":
+            df_feature = df_feature.astype(object)
         df_feature[nans] = labels_per_values[feature].get(nan_value, str_nan)
 
     return feature, list(df_feature)
